@@ -80,8 +80,10 @@ func (publisherSelf *PublisherDef[T]) Publish(result T) {
 	publisherSelf.doSubscribeSafe(func() {
 		subscribers = publisherSelf.subscribers
 	})
+	verifPoint("pub.publish.snapshot", publisherSelf)
 
 	for _, s := range subscribers {
+		verifPoint("pub.publish.beforeDeliver", publisherSelf)
 		if s.OnNext != nil {
 
 			doSub := func() {
